@@ -361,9 +361,10 @@ impl MainEvent {
                         let signal: Vec<_> = waveform
                             .iter()
                             .skip(delay)
-                            // Given the ranges of PWB samples, overflow is
-                            // not possible.
-                            .map(|&v| f64::from(v.checked_sub(baseline).unwrap()) * gain)
+                            // Convert to i32 to avoid overflow. The packet
+                            // format allows any `i16` sample, not only the
+                            // range of the PWB ADC.
+                            .map(|&v| f64::from(i32::from(v) - i32::from(baseline)) * gain)
                             .collect();
                         if !signal.is_empty() {
                             pad_signals[pad_index.0][pad_index.1] = Some(signal);
